@@ -87,6 +87,18 @@ func (bs *sqlPartStore) PutPart(ctx context.Context, tx database.Tx, partId part
 		}
 	}
 
+	if chunkIndex == 0 {
+		// An empty part still needs a row, otherwise GetPart reports it as not found.
+		emptyContentEntity := partContent.Entity{
+			Id:         ptrutils.ToPtr(partId),
+			ChunkIndex: 0,
+			Content:    []byte{},
+		}
+		if saveErr := bs.partContentRepository.SavePartContent(ctx, tx.SqlTx(), bs.partStoreId, &emptyContentEntity); saveErr != nil {
+			return saveErr
+		}
+	}
+
 	return nil
 }
 
